@@ -13,32 +13,55 @@ ALL = [f'C{i:02d}' for i in range(1, 21)]
 def sh(cmd):
     return subprocess.run(cmd, shell=True, text=True, capture_output=True)
 
+def keys_of(pid, t, w):
+    e = dict(os.environ, VERIF_REPO=str(t), VERIF_EVIDENCE_DIR=str(w / 'ev'), VERIF_OUT_DIR=str(w / 'out'))
+    (w / 'ev').mkdir(exist_ok=True)
+    ev = w / 'ev' / f'{pid}.json'
+    if ev.exists():
+        ev.unlink()
+    r = subprocess.run(['./check', pid], cwd=V, env=e, capture_output=True, text=True)
+    keys = set()
+    if ev.exists():
+        keys = set(json.loads(ev.read_text())['coverage'].get('new_violations', []))
+    return keys, r.returncode, r.stdout
+
+
 def run_one(name):
     d = T / name
     w = Path(tempfile.mkdtemp(prefix='twin.')); t = w / 't'
     sh(f'git -C /repo worktree add -q --detach {t} HEAD')
     try:
-        r = sh(f'git -C {t} apply {d / "patch.diff"}')
-        partial = ''
-        if r.returncode:
-            # a later fix: commit may touch one of the refactored functions: keep the hunks that still apply
-            r = sh(f'git -C {t} apply --reject {d / "patch.diff"}')
-            sh(f'find {t} -name "*.rej" -delete')
-            if not sh(f'git -C {t} status --porcelain').stdout.strip():
+        base = ''
+        if sh(f'git -C {t} apply --check {d / "patch.diff"}').returncode:
+            # a later fix: commit touched a refactored function: run the twin on the commit it was written for,
+            # and count only what is new with the patch
+            base = (d / 'base').read_text().strip() if (d / 'base').exists() else ''
+            if not base:
                 return name, {'error': 'patch does not apply'}
-            partial = ' (partial: some hunks no longer apply)'
+            sh(f'git -C {t} checkout -q --detach {base}')
+            if sh(f'git -C {t} apply --check {d / "patch.diff"}').returncode:
+                return name, {'error': f'patch does not apply to HEAD nor to its base {base}'}
+        before = {pid: keys_of(pid, t, w) for pid in ALL} if base else {}
+        sh(f'git -C {t} apply {d / "patch.diff"}')
         suite = sh(f'/verif/tools/baseline.py {t}').stdout.strip().splitlines()[0]
-        res = {'suite': suite + partial, 'alarms': {}, 'cannot_analyse': {}}
+        res = {'suite': suite + (f' (on base {base})' if base else ''), 'alarms': {}, 'cannot_analyse': {}}
         for pid in ALL:
-            e = dict(os.environ, VERIF_REPO=str(t), VERIF_EVIDENCE_DIR=str(w / 'ev'), VERIF_OUT_DIR=str(w / 'out'))
-            r = subprocess.run(['./check', pid], cwd=V, env=e, capture_output=True, text=True)
-            if r.returncode == 1:
-                res['alarms'][pid] = [l[8:260] for l in r.stdout.splitlines() if l.startswith('FINDING ')][:5]
-            elif r.returncode == 2:
-                res['cannot_analyse'][pid] = [l[:260] for l in r.stdout.splitlines() if l.startswith(('ANALYSIS-ERROR', 'SHAPE-MISMATCH'))][:4]
+            keys, rc, out = keys_of(pid, t, w)
+            if base:
+                bkeys, brc, _ = before[pid]
+                new = keys - bkeys
+                if rc == 1 and new:
+                    res['alarms'][pid] = sorted(new)[:5]
+                elif rc == 2 and brc != 2:
+                    res['cannot_analyse'][pid] = [l[:260] for l in out.splitlines() if l.startswith(('ANALYSIS-ERROR', 'SHAPE-MISMATCH'))][:4]
+            elif rc == 1:
+                res['alarms'][pid] = [l[8:260] for l in out.splitlines() if l.startswith('FINDING ')][:5]
+            elif rc == 2:
+                res['cannot_analyse'][pid] = [l[:260] for l in out.splitlines() if l.startswith(('ANALYSIS-ERROR', 'SHAPE-MISMATCH'))][:4]
         return name, res
     finally:
         sh(f'git -C /repo worktree remove --force {t}'); shutil.rmtree(w, ignore_errors=True)
+
 
 if sys.argv[1] == 'add':
     name, src = sys.argv[2:4]
@@ -46,6 +69,7 @@ if sys.argv[1] == 'add':
     shutil.copy(Path(src) / 'patch.diff', T / name / 'patch.diff')
     if (Path(src) / 'notes.md').exists():
         shutil.copy(Path(src) / 'notes.md', T / name / 'notes.md')
+    (T / name / 'base').write_text(sh('git -C /repo rev-parse --short HEAD').stdout.strip() + '\n')
     print('added', name)
 else:
     names = sys.argv[2:] or sorted(p.name for p in T.iterdir() if (p / 'patch.diff').exists())
